@@ -387,3 +387,27 @@ func (r *RouterRoles2) waitVerdictEdges(fn *ssa.Function, waits []ssa.CallInstru
 	}
 	return BoolEdges(fn, ResultOfAny(waits, 0))
 }
+
+// handlerStartLockID: the lock RunHandlers holds (in write mode) at the go statement that starts a handler.
+func (r *RouterRoles2) handlerStartLockID() string {
+	id := ""
+	AllInstrs(r.RunHandlers, func(in ssa.Instruction) {
+		g, ok := in.(*ssa.Go)
+		if !ok || HomeFn(in.Parent()) != r.RunHandlers {
+			return
+		}
+		cal := CalleeFn(&g.Call)
+		if cal == nil {
+			cal = FuncOfValue(firstOrigin(g.Call.Value))
+		}
+		if cal != r.StartLit {
+			return
+		}
+		for lid, m := range r.LA.Held(g) {
+			if m == 'W' {
+				id = lid
+			}
+		}
+	})
+	return id
+}
